@@ -40,7 +40,7 @@ ASSUMPTIONS = [
 
 def run(ctx: Ctx):
   m = model(ctx)
-  for r in (r1, r2, r3, r4, r5, r6, r8, r9, r10, r11, r12, r13, r15, r16, r17, r18):
+  for r in (r1, r2, r3, r4, r5, r6, r8, r9, r10, r11, r12, r13, r15, r16, r17, r18, r19, r20):
     ctx.guard(r, m)
   from mlmverif.props import c01
   ctx.include('R-C11-14', '"merging gives the same result for every grouping and order ... neutral element": the NaN convention of an'
@@ -959,12 +959,79 @@ def r18(ctx: Ctx, m):
   ctx.floor(rule, 2, n)
 
 
+def r19(ctx: Ctx, m):
+  rule = 'R-C11-19'
+  ctx.rule(rule, '"a freshly created (empty) state is a neutral element on either side": merge() may return early for an operand'
+           ' that HAS NO STATE — tested by the truth of the operand\'s state container itself (`if not other.samples`). A test'
+           ' over its ELEMENTS (`any(...)`, `all(...)`, `sum(...)`, `len(x[0])`) is not that: an operand built from empty'
+           ' batches has a shape (number of columns, multi-input flag) but only empty columns, and skipping it leaves a'
+           ' fresh receiver without that shape — fresh.merge(s) then reports `()` where s reports `[]`')
+  n = 0
+  for ci in m.accumulators:
+    fi = ci.methods.get('merge')
+    if fi is None:
+      continue
+    op = m.operand(fi)
+    for st in fi.node.body[:4]:
+      if not (isinstance(st, ast.If) and st.body and isinstance(st.body[-1], ast.Return)):
+        continue
+      if not any(isinstance(y, ast.Name) and y.id == op for y in ast.walk(st.test)):
+        continue
+      n += 1
+      elementwise = [c for c in ast.walk(st.test) if isinstance(c, ast.Call) and unparse(c.func) in ('any', 'all', 'sum', 'np.any', 'np.all')
+                     and any(isinstance(y, ast.Name) and y.id == op for y in ast.walk(c))]
+      what = f'{ci.name}.merge: the early return tests the operand\'s state container itself'
+      if elementwise:
+        ctx.fail(rule, fi, what,
+                 f'`{unparse(st.test)[:60]}` looks at the ELEMENTS of the operand\'s state: an operand with empty columns is skipped'
+                 ' although it carries the shape a fresh receiver has to take over', node=st)
+      else:
+        ctx.ok(rule, fi, what, st)
+  ctx.floor(rule, 1, n)
+
+
+def r20(ctx: Ctx, m):
+  rule = 'R-C11-20'
+  ctx.rule(rule, '"a freshly created (empty) state ... later updates do not leak": every call of create_state() hands out a state'
+           ' that no other caller holds — its return value is a constructor / factory call, a delegate\'s create_state(), or'
+           ' an immutable constant; never an object kept on `self` (`return self._initial_state`): two shards created from'
+           ' one aggregate function would be ONE accumulator, the second shard starts from the first one\'s data and'
+           ' merge_states merges a state into itself')
+  n = 0
+  for ci in ctx.repo.all_classes():
+    if not ('.aggregates.' in ci.module.name or '.metrics.' in ci.module.name) or ci.module.name.endswith('_test'):
+      continue
+    fi = ci.methods.get('create_state')
+    if fi is None:
+      continue
+    for r_ in walk_no_nested(fi.node):
+      if not (isinstance(r_, ast.Return) and r_.value is not None):
+        continue
+      n += 1
+      v = r_.value
+      shared = is_self_attr(v) or (isinstance(v, ast.Name) and any(
+          isinstance(x, ast.Assign) and any(isinstance(t, ast.Name) and t.id == v.id for t in x.targets) and is_self_attr(x.value)
+          for x in walk_no_nested(fi.node)))
+      what = f'{ci.name}.create_state: every call returns a state of its own'
+      if shared:
+        ctx.fail(rule, fi, what,
+                 f'`{unparse(r_)}` hands out an object stored on the aggregate function: all "fresh" states of this function are'
+                 ' the same object — updating one shard changes the others, a fresh receiver is not neutral', node=r_)
+      else:
+        ctx.ok(rule, fi, what, r_)
+  ctx.floor(rule, 4, n)
+
+
 from mlmverif.selfcheck import B, OK  # noqa: E402
 
 _R = 'aggregates/rolling_stats.py'
 _U = 'aggregates/utils.py'
 _T = 'aggregates/retrieval.py'
 VARIANTS = [
+    B('sampler-skips-an-operand-with-empty-columns', 'aggregates/rolling_stats.py',
+      "    if not other.samples:\n      return self", "    if not any(other.samples):\n      return self", 'R-C11-19'),
+    B('classification-agg-fn-hands-out-one-initial-state', 'metrics/classification.py',
+      "  def create_state(self) -> Any:\n    return self.agg_fn.create_state()", "  def create_state(self) -> Any:\n    if not hasattr(self, '_initial_state'):\n      self._initial_state = self.agg_fn.create_state()\n    return self._initial_state", 'R-C11-20'),
     B('revert-running-maximum-starts-at-zero', 'aggregates/rolling_stats.py',
       "  _max: int = -np.inf\n", "  _max: int = 0\n", 'R-C11-18'),
     B('running-minimum-starts-at-zero', 'aggregates/rolling_stats.py',
